@@ -3748,6 +3748,8 @@ class State:
                 self.manager.errors.generate_unused_ignore_errors(self.xpath, is_typeshed)
 
     def generate_ignore_without_code_notes(self) -> None:
+        # The per-module options consulted below are those of the file set last.
+        self.manager.errors.set_file(self.xpath, self.id, self.options)
         if self.manager.errors.is_error_code_enabled(codes.IGNORE_WITHOUT_CODE):
             is_typeshed = self.tree is not None and self.tree.is_typeshed_file(self.options)
             with self.wrap_context():
